@@ -393,7 +393,21 @@ func run(t *testing.T, tape *simrt.Tape) *hx.Outcome {
 	if c(3) == 0 && fcfg.FSCacheType == "" {
 		fcfg.PassThrough = true
 		fcfg.MergeBufferSize = int64([]int{cs, 4 * cs, 1 << 20}[c(3)])
+		// chunk boundaries need not be aligned to the merge buffer (own stream: older tapes replay unchanged)
+		switch tape.Draw("cfg.mbuf", 4) {
+		case 1:
+			fcfg.MergeBufferSize++
+		case 2:
+			if fcfg.MergeBufferSize > 2 {
+				fcfg.MergeBufferSize--
+			}
+		case 3:
+			fcfg.MergeBufferSize += int64(cs/2 + 1)
+		}
 		fcfg.MergeWorkerCount = 1 + c(3)
+		if tape.Draw("cfg.mwc", 6) == 0 {
+			fcfg.MergeWorkerCount = 0 // unset (nothing applies the config struct's default tags)
+		}
 	}
 	root, cleanup := hx.RunDir()
 	defer cleanup()
